@@ -1,6 +1,8 @@
 -------------------------------- MODULE Exec --------------------------------
-(* Life cycle of the task instances of one PTG taskpool, as the generated code and the runtime implement it, for a
-   program Prog given as a JDFSem record (C01, C02, C16).
+(* Life cycle of the task instances of one PTG taskpool, as the generated code and the runtime implement it, for
+   programs given as JDFSem records (C01, C02, C16).  Progs is a sequence of [prog, again, iter, chunk]: one TLC run
+   explores every listed program (the initial state chooses it: variable pi) with its own bound on AGAIN returns and
+   its own task_startup_iter / task_startup_chunk.
 
    jdf_generate_internal_init   counts the instances of the space: nb = |Space(Prog)| (initial state)
    jdf_generate_startup_tasks   one generator per task class walks the nested loops of the class in order
@@ -25,9 +27,10 @@
    Properties: RanOnce, OnlySpace, StartAfterPreds, StartupOnce, TermOK (termination only when every instance ran
    once, and the collection equals the sequential interpretation), no deadlock before termination. *)
 EXTENDS JDFSem
-CONSTANTS Prog, AgainMax, StartupIter, StartupChunk, LoopLE
+CONSTANTS Progs, LoopLE
 
-VARIABLES gen,      \* per class: startup generator [i, res, nbt, tot, ring, st]
+VARIABLES pi,       \* the program of this behaviour (index in Progs), never changes
+          gen,      \* per class: startup generator [i, res, nbt, tot, ring, st]
           sched,    \* ready tasks held by the scheduler
           running,  \* tasks whose hook is executing -> values read at Select
           att,      \* number of AGAIN returns per task
@@ -37,36 +40,48 @@ VARIABLES gen,      \* per class: startup generator [i, res, nbt, tot, ring, st]
           out, coll,\* values carried by completed tasks, collection
           nb,       \* tasks still to complete (termination detection counter)
           term, bad
-vars == <<gen, sched, running, att, ran, made, got, out, coll, nb, term, bad>>
+vars == <<pi, gen, sched, running, att, ran, made, got, out, coll, nb, term, bad>>
 
-\* everything below only depends on the constant Prog: TLC evaluates these definitions once
-CP == Compile(Prog)
+\* the tables below only depend on the constant Progs: TLC evaluates these definitions once
+NProgs == Len(Progs)
+CPs == [i \in 1..NProgs |-> Compile(Progs[i].prog)]
+CTasksFs == [i \in 1..NProgs |-> [c \in 0..(NClasses(Progs[i].prog) - 1) |-> ClassTasks(Progs[i].prog, c)]]
+\* activations a task waits for: <<predecessor, own flow index>> for every active input dependency on a task
+ExpectedFs == [i \in 1..NProgs |-> [t \in CPs[i].space |->
+                 UNION {{<<ep.t, g>> : ep \in {x \in CPs[i].ins[t][g] : x.k = "task"}} : g \in 1..Len(CPs[i].ins[t])}]]
+\* activations a completing task sends: <<successor, flow index of the successor>>
+SendsFs == [i \in 1..NProgs |-> [t \in CPs[i].space |->
+              UNION {{<<ep.t, FlowIndex(Progs[i].prog, ep.t[1], ep.f)>> : ep \in {x \in CPs[i].outs[t][g] : x.k = "task"}}
+                     : g \in 1..Len(CPs[i].outs[t])}]]
+SeqFins == [i \in 1..NProgs |-> SeqFinal(Progs[i].prog, CPs[i])]
+\* the program of the current behaviour
+Prog == Progs[pi].prog
+AgainMax == Progs[pi].again
+StartupIter == Progs[pi].iter
+StartupChunk == Progs[pi].chunk
+CP == CPs[pi]
 S == CP.space
 NC == NClasses(Prog)
-CTasksF == [c \in 0..(NC - 1) |-> ClassTasks(Prog, c)]
-CTasks(c) == CTasksF[c]
+CTasks(c) == CTasksFs[pi][c]
 PredMap == CP.preds
-\* activations a task waits for: <<predecessor, own flow index>> for every active input dependency on a task
-ExpectedF == [t \in S |-> UNION {{<<ep.t, g>> : ep \in {x \in CP.ins[t][g] : x.k = "task"}} : g \in 1..Len(CP.ins[t])}]
-Expected(t) == ExpectedF[t]
-\* activations a completing task sends: <<successor, flow index of the successor>>
-SendsF == [t \in S |-> UNION {{<<ep.t, FlowIndex(Prog, ep.t[1], ep.f)>> : ep \in {x \in CP.outs[t][g] : x.k = "task"}}
-                              : g \in 1..Len(CP.outs[t])}]
-Sends(t) == SendsF[t]
-SeqFin == SeqFinal(Prog, CP)
+Expected(t) == ExpectedFs[pi][t]
+Sends(t) == SendsFs[pi][t]
+SeqFin == SeqFins[pi]
 
 \* ---- the `<=`-only loops of the generated code (sensitivity switch) -----------------------------------------------
 \* a descending range lo .. hi .. st (st < 0, lo > hi) is never entered by `for(v = lo; v <= hi; v += st)`
 Desc(L, env) == L.kind = "range" /\ Eval(L.st, env) < 0 /\ Eval(L.lo, env) > Eval(L.hi, env)
-RECURSIVE SkippedLE(_, _, _)
-SkippedLE(cls, p, i) ==      \* TRUE when some loop around the instance with parameters p is descending
+RECURSIVE SkippedLE(_, _, _, _)
+SkippedLE(prog, cls, p, i) ==      \* TRUE when some loop around the instance with parameters p is descending
     IF i > Len(cls.locals) THEN FALSE
-    ELSE Desc(cls.locals[i], BindLocals(cls, p, 1, Prog.globals)) \/ SkippedLE(cls, p, i + 1)
-Targets == S \cup UNION {{x[1] : x \in SendsF[t]} : t \in S}
-HiddenF == [t \in Targets |-> LoopLE /\ SkippedLE(Class(Prog, t[1]), t[2], 1)]
-Hidden(t) == HiddenF[t]
+    ELSE Desc(cls.locals[i], BindLocals(cls, p, 1, prog.globals)) \/ SkippedLE(prog, cls, p, i + 1)
+HiddenFs == [i \in 1..NProgs |->
+               [t \in CPs[i].space \cup UNION {{x[1] : x \in SendsFs[i][u]} : u \in CPs[i].space} |->
+                  LoopLE /\ SkippedLE(Progs[i].prog, Class(Progs[i].prog, t[1]), t[2], 1)]]
+Hidden(t) == HiddenFs[pi][t]
 
-Init == /\ gen = [c \in 0..(NC - 1) |-> [i |-> 1, res |-> 1, nbt |-> 0, tot |-> 0, ring |-> {}, st |-> "run"]]
+Init == /\ pi \in 1..NProgs
+        /\ gen = [c \in 0..(NC - 1) |-> [i |-> 1, res |-> 1, nbt |-> 0, tot |-> 0, ring |-> {}, st |-> "run"]]
         /\ sched = {} /\ running = <<>>
         /\ att = [t \in S |-> 0] /\ ran = [t \in S |-> 0] /\ made = [t \in S |-> 0] /\ got = [t \in S |-> {}]
         /\ out = <<>> /\ coll = InitColl(Prog)
@@ -91,33 +106,33 @@ StartupIterate(c) ==
                                         tot |-> tot1,
                                         ring |-> IF flush THEN {} ELSE ring1,
                                         st |-> IF flush /\ tot1 > StartupChunk THEN "again" ELSE "run"]]
-    /\ UNCHANGED <<running, att, ran, got, out, coll, nb, term, bad>>
+    /\ UNCHANGED <<pi, running, att, ran, got, out, coll, nb, term, bad>>
 
 \* the generator was rescheduled: counters restart, the saved iterator values are kept
 StartupResume(c) ==
     /\ gen[c].st = "again"
     /\ gen' = [gen EXCEPT ![c] = [@ EXCEPT !.st = "run", !.res = 1, !.tot = 0, !.nbt = 0]]
-    /\ UNCHANGED <<sched, running, att, ran, made, got, out, coll, nb, term, bad>>
+    /\ UNCHANGED <<pi, sched, running, att, ran, made, got, out, coll, nb, term, bad>>
 
 \* end of the loops: the remaining ring goes to the scheduler
 StartupEnd(c) ==
     /\ gen[c].st = "run" /\ gen[c].i > Len(CTasks(c))
     /\ sched' = sched \cup gen[c].ring
     /\ gen' = [gen EXCEPT ![c] = [@ EXCEPT !.st = "done", !.ring = {}, !.nbt = 0]]
-    /\ UNCHANGED <<running, att, ran, made, got, out, coll, nb, term, bad>>
+    /\ UNCHANGED <<pi, running, att, ran, made, got, out, coll, nb, term, bad>>
 
 Select(t) ==
     /\ t \in sched /\ t \notin DOMAIN running
     /\ sched' = sched \ {t}
     /\ running' = (t :> Reads(Prog, CP, t, out, coll)) @@ running
-    /\ UNCHANGED <<gen, att, ran, made, got, out, coll, nb, term, bad>>
+    /\ UNCHANGED <<pi, gen, att, ran, made, got, out, coll, nb, term, bad>>
 
 HookAgain(t) ==
     /\ t \in DOMAIN running /\ att[t] < AgainMax
     /\ att' = [att EXCEPT ![t] = @ + 1]
     /\ running' = [x \in (DOMAIN running) \ {t} |-> running[x]]
     /\ sched' = sched \cup {t}
-    /\ UNCHANGED <<gen, ran, made, got, out, coll, nb, term, bad>>
+    /\ UNCHANGED <<pi, gen, ran, made, got, out, coll, nb, term, bad>>
 
 Complete(t) ==
     /\ t \in DOMAIN running
@@ -137,7 +152,7 @@ Complete(t) ==
     /\ running' = [x \in (DOMAIN running) \ {t} |-> running[x]]
     /\ nb' = nb - 1
     /\ term' = (nb - 1 = 0)
-    /\ UNCHANGED <<gen, att, made>>
+    /\ UNCHANGED <<pi, gen, att, made>>
 
 \* the taskpool is complete: nothing more happens
 Terminated == /\ term /\ \A c \in 0..(NC - 1) : gen[c].st = "done"
@@ -157,5 +172,5 @@ StartupOnce == \A t \in S : made[t] <= 1                                  \* C16
 TermOK == term => /\ \A t \in S : ran[t] = 1                              \* C01: termination only when everything ran
                   /\ coll = SeqFin                                        \* C02: = sequential interpretation
                   /\ \A t \in S : made[t] = (IF PredMap[t] = {} THEN 1 ELSE 0)
-ASSUME ProgOK == WellFormed(Prog) /\ Consistent(Prog)
+ASSUME ProgsOK == \A i \in 1..NProgs : WellFormed(Progs[i].prog) /\ Consistent(Progs[i].prog)
 =============================================================================
